@@ -25,6 +25,11 @@ pub struct ProgSpec {
     pub blocks: Vec<Vec<usize>>,
 }
 
+/// When set, `ProgSpec::build` gives every non-empty block instruction indices starting at 1 (a leading instruction is
+/// pushed and removed again, as `Block::remove_instruction` users do), so an instruction's index differs from its
+/// position. Workers are single-threaded; the flag is recorded in every case's JSON.
+pub static GAPPED: std::sync::atomic::AtomicBool = std::sync::atomic::AtomicBool::new(false);
+
 #[derive(Clone)]
 pub struct Alphabet {
     pub ops: Vec<il::Operation>,
@@ -44,8 +49,12 @@ impl ProgSpec {
             cfg.new_block().unwrap();
         }
         let mut addr = address;
+        let gapped = GAPPED.load(std::sync::atomic::Ordering::Relaxed);
         for (bi, ops) in self.blocks.iter().enumerate() {
             let b = cfg.block_mut(bi).unwrap();
+            if gapped && !ops.is_empty() {
+                b.nop(); // removed below: instruction indices then start at 1, so index != position
+            }
             for oi in ops {
                 match a.ops[*oi].clone() {
                     il::Operation::Assign { dst, src } => b.assign(dst, src),
@@ -53,11 +62,15 @@ impl ProgSpec {
                     il::Operation::Load { dst, index } => b.load(dst, index),
                     il::Operation::Branch { target } => b.branch(target),
                     il::Operation::Intrinsic { intrinsic } => b.intrinsic(intrinsic),
+                    il::Operation::Nop { placeholder: Some(op) } => b.placeholder(*op),
                     il::Operation::Nop { .. } => b.nop(),
                 }
                 let last = b.instructions_mut().last_mut().unwrap();
                 last.set_address(Some(addr));
                 addr += 1;
+            }
+            if gapped && !ops.is_empty() {
+                b.remove_instruction(0).unwrap();
             }
         }
         for (bi, s) in self.succ.iter().enumerate() {
@@ -95,9 +108,11 @@ impl ProgSpec {
             })
             .collect();
         let text: Vec<Vec<String>> = self.blocks.iter().map(|b| b.iter().map(|i| format!("{}", a.ops[*i])).collect()).collect();
-        json!({"entry": self.entry, "exit": self.exit, "succ": succ, "blocks": self.blocks, "text": text})
+        json!({"entry": self.entry, "exit": self.exit, "succ": succ, "blocks": self.blocks, "text": text, "gapped": GAPPED.load(std::sync::atomic::Ordering::Relaxed)})
     }
     pub fn from_json(v: &Value) -> ProgSpec {
+        // a replayed case restores the index mode it was found in
+        GAPPED.store(v["gapped"].as_bool().unwrap_or(false), std::sync::atomic::Ordering::Relaxed);
         let succ = v["succ"]
             .as_array()
             .unwrap()
